@@ -66,6 +66,10 @@ def tn_variants():
         lambda: simple_tn("int", [("ptr", []), ("arr", {"size": int_const("3")})]),
         lambda: simple_tn("void", [("ptr", []), ("fn", {"params": [M("param", specs=basic_specs(["int"]), dtor=dtor(None))], "variadic": False, "kr": None})]),
         lambda: typename(specs_of(M("enum", tag="EN0", items=None))),
+        # the _Atomic(type-name) specifier inside a type name, without and with a declarator of its own
+        lambda: typename(specs_of(M("atomic", tn=simple_tn("int")))),
+        lambda: typename(specs_of(M("atomic", tn=simple_tn("long", [("ptr", [])])))),
+        lambda: typename(specs_of(M("atomic", tn=simple_tn("char"))), [("ptr", [])]),
     ]
 
 
